@@ -1,7 +1,8 @@
 """constants of utils.shortest_int and devices.ADC  ->  Gen/Quant.lean
 
     lag = int(len(data) * percent/K)                           -> percentDivisor = K
-    i = np.where(np.abs(diff - np.min(diff)) < TOL)[0]         -> tieTol = TOL
+    dmin = np.min(diff)
+    i = np.where(np.abs(diff - dmin) <= TOL * np.abs(dmin))[0] -> tieTol = TOL   (relative tie tolerance)
     i = i[len(i)//D]                                           -> centralDivisor = D
     V_min, V_max = shortest_int(signal, P)        (in ADC)     -> adcPercent = P
 """
@@ -36,17 +37,21 @@ def generate(repo):
     idx = assigns_to(fn, "i")
     if len(idx) != 2:
         raise AnchorMissing("shortest_int: two assignments to i")
+    dm = assigns_to(fn, "dmin")
+    if len(dm) != 1 or ast.unparse(dm[0].value) != "np.min(diff)":
+        raise AnchorMissing("shortest_int: dmin = np.min(diff)")
     w = idx[0].value
-    # np.where(np.abs(diff - np.min(diff)) < TOL)[0]
+    # np.where(np.abs(diff - dmin) <= TOL * np.abs(dmin))[0]     (ties up to a RELATIVE tolerance)
     tol = None
     if (isinstance(w, ast.Subscript) and isinstance(w.value, ast.Call) and ast.unparse(w.value.func) == "np.where"
             and ast.unparse(w.slice) == "0" and len(w.value.args) == 1 and isinstance(w.value.args[0], ast.Compare)):
         c = w.value.args[0]
-        if (len(c.ops) == 1 and isinstance(c.ops[0], ast.Lt)
-                and ast.unparse(c.left) == "np.abs(diff - np.min(diff))"):
-            tol = lit_number(c.comparators[0])
+        r = c.comparators[0]
+        if (len(c.ops) == 1 and isinstance(c.ops[0], ast.LtE) and ast.unparse(c.left) == "np.abs(diff - dmin)"
+                and isinstance(r, ast.BinOp) and isinstance(r.op, ast.Mult) and ast.unparse(r.right) == "np.abs(dmin)"):
+            tol = lit_number(r.left)
     if tol is None:
-        raise AnchorMissing("shortest_int: np.where(np.abs(diff - np.min(diff)) < TOL)[0]")
+        raise AnchorMissing("shortest_int: np.where(np.abs(diff - dmin) <= TOL * np.abs(dmin))[0]")
     s = idx[1].value
     if not (isinstance(s, ast.Subscript) and ast.unparse(s.value) == "i" and isinstance(s.slice, ast.BinOp)
             and isinstance(s.slice.op, ast.FloorDiv) and ast.unparse(s.slice.left) == "len(i)"):
@@ -72,7 +77,7 @@ def generate(repo):
 /-- `lag = int(len(data) * percent/percentDivisor)` -/
 def percentDivisor : Rat := {lean_rat(div)}
 
-/-- `np.abs(diff - np.min(diff)) < tieTol` -/
+/-- `np.abs(diff - dmin) <= tieTol * np.abs(dmin)` with `dmin = np.min(diff)`: RELATIVE tie tolerance -/
 def tieTol : Rat := {lean_rat(tol)}
 
 /-- `i = i[len(i)//centralDivisor]` -/
